@@ -77,7 +77,7 @@ def applyDamage (alt orig : Nat → Bytes) (i : Nat) (f : Option Bytes) (tok : S
         | 'c' =>
           if b.length > metaSize then
             let k := metaSize + n % (b.length - metaSize)
-            some (some (b.set k ((orig i).getD (k - metaSize) 0 + deltas.getD i 1)))
+            some (some (b.set k (((orig i).getD (k - metaSize) 0 + deltas.getD i 1) % P)))
           else some (some b)
         | 'k' =>
           if b.length ≥ metaSize then
